@@ -90,12 +90,14 @@ def boundary(v):
 class Env:
     """Built schema and helpers for one model."""
 
-    def __init__(self, m):
+    def __init__(self, m, out_names=False):
         from graphql import (GraphQLBoolean, GraphQLFloat, GraphQLID, GraphQLInt, GraphQLList,
                              GraphQLNonNull, GraphQLString)
 
         self.m = g2.as_model(m)
-        self.schema = g2.build(self.m)
+        # out_names: every input field is handed to Python code under another name (py_<name>); the results
+        # are translated back (g2.unpy) before they are compared with the reference
+        self.schema = g2.build(self.m, input_out_names=out_names)
         builtin = {"Int": GraphQLInt, "Float": GraphQLFloat, "String": GraphQLString,
                    "Boolean": GraphQLBoolean, "ID": GraphQLID}
 
@@ -137,7 +139,7 @@ def eval_value(env, t, v, case):
 
     tobj = env.T(t)
     try:
-        c = coerce_input_value(v, tobj)
+        c = g2.unpy(coerce_input_value(v, tobj))
     except Exception as e:  # noqa: BLE001
         bad("coerce-value-raises", f"{type(e).__name__}: {e}")
         return vs
@@ -171,7 +173,7 @@ def eval_value(env, t, v, case):
             bad("value-to-literal-none", "accepted value has no literal")
         else:
             try:
-                c2 = coerce_input_literal(lit, tobj)
+                c2 = g2.unpy(coerce_input_literal(lit, tobj))
                 if c2 is Undefined or not eq(c2, c):
                     from graphql import print_ast
 
@@ -200,7 +202,7 @@ def eval_const_literal(env, t, lit, case):
     tobj = env.T(t)
     node = g1.build(lit)
     try:
-        c = coerce_input_literal(node, tobj)
+        c = g2.unpy(coerce_input_literal(node, tobj))
     except Exception as e:  # noqa: BLE001
         bad("coerce-literal-raises", f"{type(e).__name__}: {e}")
         return vs
@@ -275,7 +277,7 @@ def eval_variables(env, vardefs, inputs, case):
         if (provided or default is not None) and name not in r.coerced:
             bad("variable-missing", f"${name} provided={provided} defaulted={default is not None} has "
                 f"no coerced value; {text} inputs={inputs!r}")
-        elif name in r.coerced and not R4.conforms(env.m, t, r.coerced[name]):
+        elif name in r.coerced and not R4.conforms(env.m, t, g2.unpy(r.coerced[name])):
             bad("variable-nonconforming", f"${name}: {r.coerced[name]!r} does not conform to "
                 f"{g2.type_str(t)}; {text} inputs={inputs!r}")
     return vs, r
@@ -304,7 +306,7 @@ def eval_argument(env, t, lit, variable_values, case):
                             f"type {g2.type_str(t)} literal {text}: {type(e).__name__}: {e}", case,
                             {"relation": "get-argument-values-raises"}))
         return vs
-    if "arg" in out and not R4.conforms(env.m, t, out["arg"]):
+    if "arg" in out and not R4.conforms(env.m, t, g2.unpy(out["arg"])):
         vs.append(Violation(("C15", "argument-nonconforming"),
                             f"type {g2.type_str(t)} literal {text}: {out['arg']!r} does not conform "
                             f"(variables {getattr(variable_values, 'coerced', None)!r})", case,
@@ -370,7 +372,7 @@ def g_scenario(c):
         elif k == 1:
             inputs[f"x{i}"] = None
         vardefs.append([f"x{i}", t, default])
-    return {"model": dict(m), "items": items, "vardefs": vardefs, "inputs": inputs}
+    return {"model": dict(m), "items": items, "vardefs": vardefs, "inputs": inputs, "out_names": c.chance(100)}
 
 
 def rewrap(k, v):
@@ -389,7 +391,7 @@ def jsonlike_lit(lit):
 
 
 def eval_scenario(sc):
-    env = Env(sc["model"])
+    env = Env(sc["model"], sc.get("out_names", False))
     pool = g5.adversarial_pool()
     vs = []
     n = 0
@@ -399,14 +401,14 @@ def eval_scenario(sc):
         for kind, v in it["values"]:
             val = pool[v] if kind == "pool" else (rewrap(*v) if kind == "wrap" else v)
             case = {"model": sc["model"], "items": [{"type": t, "values": [[kind, v]], "literals": []}],
-                    "vardefs": [], "inputs": {}}
+                    "vardefs": [], "inputs": {}, "out_names": sc.get("out_names", False)}
             vs += eval_value(env, t, val, case)
             n += 1
             if depth_of(val) >= 2 or boundary(val):
                 nt.append((g2.type_str(t), repr(val)))
         for entry in it["literals"]:
             case = {"model": sc["model"], "items": [{"type": t, "values": [], "literals": [entry]}],
-                    "vardefs": [], "inputs": {}}
+                    "vardefs": [], "inputs": {}, "out_names": sc.get("out_names", False)}
             if entry[0] == "const":
                 if R4.has_var(entry[1]):
                     continue
@@ -424,7 +426,8 @@ def eval_scenario(sc):
                     n += 1
                     nt.append((g2.type_str(t), str(lit)))
     if sc["vardefs"]:
-        case = {"model": sc["model"], "items": [], "vardefs": sc["vardefs"], "inputs": sc["inputs"]}
+        case = {"model": sc["model"], "items": [], "vardefs": sc["vardefs"], "inputs": sc["inputs"],
+                "out_names": sc.get("out_names", False)}
         v1, _vv = eval_variables(env, [tuple(x) for x in sc["vardefs"]], sc["inputs"], case)
         vs += v1
         n += 1
